@@ -20,6 +20,14 @@ import gen_alloc_consts  # noqa: E402
 
 CAP_ERRS = ("e:TooManyAtoms", "e:TooManyPairs", "e:OutOfMemory")
 
+RULE = ("operation histories of 3..150 steps over Allocator::new_limited(L): directed histories reaching every branch the "
+        "properties name, then random histories from profiles (general, heap cap with L in 0..100, atom cap and pair cap pre-loaded to "
+        "within 0..9 of 62 500 000 through add_ghost_atom/add_ghost_pair, integers at every boundary 0x7f..2^64 through all four "
+        "encoders, gc = transparent checkpoints + >=1024 bytes of garbage + maybe_restore_with_node, F2 = substrings of inline atoms, "
+        "substr/concat over all representation combinations, misuse); arguments index earlier results (mostly valid, sometimes off "
+        "the end), bounds in range / off by one / random; checkpoints restored LIFO and to older ones (never forwards: the API forbids it); "
+        "non-trivial = distinct history with >= 3 observed steps")
+
 
 def f2_fixed():
     try:
@@ -73,7 +81,11 @@ def exhaustive_small(fx, maxlen):
     for short byte strings'); 64 atoms per history"""
     out = []
     strings = [b""]
-    for n in range(1, maxlen + 1):
+    strings += [bytes([v]) for v in range(256)]
+    if maxlen == 1:
+        # quick tier: every 1-byte string, and every 2-byte string whose first byte is at a boundary
+        strings += [bytes([a, b]) for a in (0, 1, 3, 4, 0x7f, 0x80, 0xfe, 0xff) for b in range(256)]
+    for n in range(2, maxlen + 1):
         if n <= 2:
             strings += [v.to_bytes(n, "big") for v in range(256 ** n)]
         else:
@@ -116,13 +128,15 @@ def run_all(ctx, cases, want):
     ctx.correspond("alloc", cases, canon=ident, skip=lambda m: False,
                    nontrivial=lambda c, a, b: b is not None and len(b.split()) >= 3)
     impl = vlib.run_impl("alloc", cases)
+    cref = vlib.run_model("alloc", ["ref" + c[3:] for c in cases]) if want == "counts" else [None] * len(cases)
     f2 = vlib.run_model("alloc", ["f2" + c[3:] for c in cases])
     nsteps = 0
-    for c, o, flags in zip(cases, impl, f2):
+    for c, o, flags, cr in zip(cases, impl, f2, cref):
         parts = c.split()
         limit, toks = int(parts[2]), parts[3:]
         steps = [] if o in (None, "-") else o.split(" ")
         ref = gen_alloc.ref_line(limit, toks)
+        crs = cr.split(" ") if cr else None
         prev = ("2,0,1", "cbf29ce484222325")
         reported = False
         for k, tok in enumerate(toks):
@@ -150,7 +164,14 @@ def run_all(ctx, cases, want):
             ctx.histogram("result", res.split(":")[0] if not res.startswith("e:") else res)
             na, np_, nh = (int(x) for x in cnt.split(","))
             # monitors that need no reference -----------------------------------------------
-            if want == "caps":
+            if want == "counts" and crs is not None and not in_f2 and k < len(crs) and crs[k] != "P":
+                # the reference extracted from coq/Model/AllocRef.v (normalised observations)
+                if gen_alloc.norm_step(crs[k]).rsplit("/", 2)[1] != cnt and not reported:
+                    cr_res = gen_alloc.norm_step(crs[k]).rsplit("/", 2)[0]
+                    if not ((res in CAP_ERRS or cr_res in CAP_ERRS) and res != cr_res):
+                        reported = True
+                        ctx.violation("counts %s differ from the extracted reference AllocRef (%s) after step %d (%s)" % (cnt, crs[k], k, tok), rep)
+            if want == "caps" and limit >= 1:      # new_limited(0) starts with heap_size 1 > 0 (degenerate start)
                 if na > gen_alloc.MAX_ATOMS or np_ > gen_alloc.MAX_PAIRS or nh > limit:
                     ctx.violation("cap exceeded after step %d (%s): counts %s, heap limit %d" % (k, tok, cnt, limit), rep)
                     break
